@@ -1,7 +1,7 @@
 (* C05 - half-close / grace theorem: glue of the relay-level theorem (C05_HCRelay) and the prologue-level
    theorem (C05_HCPrologue). *)
 From Coq Require Import List NArith Bool Lia ZifyBool ZifyN.
-From Dae Require Import C05_Spec C05_Model C05_Proofs C05_HCDefs.
+From Dae Require Import C05_Spec C05_Model C05_Proofs C05_HCDefs C05_HCRelay C05_HCPrologue.
 From Dae.gen Require Import C05_Extracted.
 Import ListNotations.
 Open Scope N_scope.
@@ -97,3 +97,13 @@ Proof.
   - rewrite Hdown. unfold before_cut, sock_side, mk_sock. cbn [s_chunks k_in].
     apply (norm_deliverable (ps_now ps) (cut_of grace (ps_now ps) server client) (s_chunks server)).
 Qed.
+
+Theorem half_close_proof :
+  forall p grace pend prio client server,
+    wf_side client -> wf_side server -> 0 < grace ->
+    let o := connection p grace pend prio client server in
+    let x := expect grace (o_start o) client server in
+    o_handled_dns o = false ->
+    o_up o = x_up x /\ o_down o = x_down x /\
+    o_up_shut o = x_up_shut x /\ o_down_shut o = x_down_shut x /\ o_alive o = x_alive x.
+Proof. exact (half_close_from relay_matches_spec prologue_ready). Qed.
